@@ -29,7 +29,7 @@ def run(ctx):
     for esz, hasx in sizes:
         closure(ctx, exe, esz, hasx, 4 if ctx.quick else 5, props)
     for esz, hasx in ([(8, True)] if ctx.quick else [(1, False), (24, True)]):
-        impl_phase(ctx, f"rand-e{esz}", exe, ["random", ctx.seed, 2500 if ctx.quick else 20000, 3], [esz, int(hasx), 40 if ctx.quick else 200, 1],
+        impl_phase(ctx, f"rand-e{esz}", exe, ["random", ctx.seed, 2500 if ctx.quick else 20000, 3], [esz, int(hasx), 150 if ctx.quick else 240, 1],
                    "TraceVec", "", consts(esz, hasx), props)
     ctx.assumptions += [
         "TLC and the TLA+ text of StorageOK / KeepOK / XtorOK / C09OK are trusted",
